@@ -86,7 +86,7 @@ impl Check for C09 {
              "the matrix of dimension types is complete for the listed types; inside a cell the data are sampled".into()]
     }
     fn required_classes(&self, _t: Tier) -> Vec<&'static str> {
-        vec!["query:nonstandard-layout", "zero-length-query-axis", "zero-length-trailing-axis", "combined-rank>6", "strat:Linear", "strat:Spline", "strat:Bilinear", "batch-with-bad-element"]
+        vec!["query:axis-prefix", "query:nonstandard-layout", "zero-length-query-axis", "zero-length-trailing-axis", "combined-rank>6", "strat:Linear", "strat:Spline", "strat:Bilinear", "batch-with-bad-element"]
     }
     fn extra_coverage(&self) -> serde_json::Value {
         json!({"matrix_cells": cells()})
@@ -148,6 +148,8 @@ fn run1<T: Flt>(src: &mut Src, obs: &mut Obs, qd: QDim, qrank: usize, dd: DDim, 
     let (qshape, trailing) = shapes(src, obs, qrank, drank - 1);
     let lanes = product(&trailing);
     let n = src.usize_in(if spline { 3 } else { 2 }, 9);
+    let qshape0 = qshape.clone();
+    let _ = &qshape0;
     let class = axis_class(src);
     let x = axis::<T>(src, n, class, Some(6));
     let vc = val_class(src);
@@ -170,8 +172,19 @@ fn run1<T: Flt>(src: &mut Src, obs: &mut Obs, qd: QDim, qrank: usize, dd: DDim, 
         Ok(r) => r?,
         Err(p) => fail!("panic/build", "build panicked for data shape {:?}: {p}", c.shape()),
     };
-    let qlen = product(&qshape);
-    let qs = distinct_queries::<T>(src, &x, qlen);
+    // rank-1 queries: in 1 of 8 cases the query starts with the complete axis (evaluation at the knots plus extra points)
+    let mut qshape = qshape;
+    let axis_prefix = qshape.len() == 1 && src.chance(1, 8);
+    let qlen = if axis_prefix { n + src.usize_in(0, 3) } else { product(&qshape) };
+    let qs = if axis_prefix {
+        obs.class("query:axis-prefix");
+        qshape = vec![qlen];
+        let mut v: Vec<T> = x.iter().map(|&k| T::of(k)).collect();
+        v.extend(distinct_queries::<T>(src, &x, qlen - n));
+        v
+    } else {
+        distinct_queries::<T>(src, &x, qlen)
+    };
     let qlay = crate::layout::pick_lay(src);
     if qlay.0 != crate::layout::Layout::C {
         obs.class("query:nonstandard-layout");
